@@ -11,7 +11,7 @@ EXHAUSTIVE = {}
 
 
 def generate(R, tier):
-    n = 2000 if tier == "quick" else 40000
+    n = 2000 if tier == "quick" else 200000
     for _ in range(n):
         yield {"stream": "valid", "lines": D.valid_file(R)}
     yield {"stream": "shipped", "shipped": True, "lines": []}
